@@ -111,6 +111,17 @@ func newStubImporter() *stubImporter {
 	method(p, lst, "Len", []types.Type{in})
 	method(p, lst, "Back", []types.Type{types.NewPointer(elT)})
 	method(p, lst, "Front", []types.Type{types.NewPointer(elT)})
+	// encoding/binary: LittleEndian.PutUint32 / Uint32
+	p = mk("encoding/binary", "binary")
+	leT := named(p, "littleEndian", types.NewStruct(nil, nil))
+	{
+		rv := types.NewParam(token.NoPos, p, "r", leT)
+		sig := types.NewSignatureType(rv, nil, nil, types.NewTuple(types.NewParam(token.NoPos, p, "b", bs), types.NewParam(token.NoPos, p, "v", u32)), nil, false)
+		leT.AddMethod(types.NewFunc(token.NoPos, p, "PutUint32", sig))
+		sig2 := types.NewSignatureType(rv, nil, nil, types.NewTuple(types.NewParam(token.NoPos, p, "b", bs)), types.NewTuple(types.NewParam(token.NoPos, p, "", u32)), false)
+		leT.AddMethod(types.NewFunc(token.NoPos, p, "Uint32", sig2))
+	}
+	p.Scope().Insert(types.NewVar(token.NoPos, p, "LittleEndian", leT))
 	// github.com/gcash/bchutil: type Amount int64
 	p = mk("github.com/gcash/bchutil", "bchutil")
 	named(p, "Amount", types.Typ[types.Int64])
@@ -149,6 +160,7 @@ type mtype struct {
 	str   bool   // string (immutable)
 	sized bool   // int8/int16/int32/int64: arithmetic wraps (int does not)
 	abs   string // name of the abstract type
+	alen  int64  // length of an array type (0 for slices and strings)
 }
 
 func (t mtype) coq() string {
@@ -178,6 +190,9 @@ func (t mtype) zero() string {
 	case mBool:
 		return "false"
 	case mList:
+		if t.alen > 0 {
+			return fmt.Sprintf("(List.repeat %s %d%%nat)", t.elem.zero(), t.alen)
+		}
 		return "[]"
 	}
 	return "tt"
@@ -289,7 +304,10 @@ func (c *m2) mt(t types.Type, at ast.Node) mtype {
 		if e.k != mN && e.k != mZ {
 			c.fail(at, "unsupported element type in %s", t)
 		}
-		return mtype{k: mList, elem: &e}
+		if u.Len() > 4096 {
+			c.fail(at, "array type %s too large", t)
+		}
+		return mtype{k: mList, elem: &e, alen: u.Len()}
 	}
 	c.fail(at, "unsupported type %s of `%s` (monadic mode: integers, bool, string, slices/arrays of integers, error)", t, c.srcText(at.Pos(), at.End()))
 	return mtype{}
@@ -299,20 +317,21 @@ func (c *m2) mt(t types.Type, at ast.Node) mtype {
 // signatures of the translated functions (for calls)
 
 type fsig struct {
-	name     string   // Coq name
-	fields   []string // receiver field paths read (Coq parameter names), in order of first use
-	fieldTy  []mtype
-	wfields  []string // receiver field paths written (returned)
-	params   []mtype
-	results  []mtype // without the error
-	hasErr   bool
-	fallible bool // Coq result type is res
-	fuel     bool
-	consumes []bool // parameter i is used as the base of an append (result may share its array)
-	nGo      int    // number of results of the Go function (the written fields follow them)
-	wfieldTy map[string]mtype
-	absTypes []string  // abstract types (implicit type parameters)
-	absMeths []absMeth // their methods used (function parameters), in order of first use
+	name         string   // Coq name
+	fields       []string // receiver field paths read (Coq parameter names), in order of first use
+	fieldTy      []mtype
+	wfields      []string // receiver field paths written (returned)
+	params       []mtype
+	results      []mtype // without the error
+	hasErr       bool
+	fallible     bool // Coq result type is res
+	fuel         bool
+	consumes     []bool // parameter i is used as the base of an append (result may share its array)
+	structParams bool   // has struct parameters (their fields are field parameters): not callable from translated code
+	nGo          int    // number of results of the Go function (the written fields follow them)
+	wfieldTy     map[string]mtype
+	absTypes     []string  // abstract types (implicit type parameters)
+	absMeths     []absMeth // their methods used (function parameters), in order of first use
 }
 
 type absMeth struct {
@@ -355,7 +374,8 @@ const header2 = `(* GENERATED by harness/cmd/gotrans (monadic mode) from the Go 
    A function that can fail has type res: Ok v | Err k (k = number of the error
    return site, in source order, table in front of the function) | Panic kind
    (1 index out of range, 2 slice bounds out of range, 3 division by zero,
-   6 makeslice: len out of range, 9 out of fuel in a for-cond loop).
+   4 failed type assertion, 6 makeslice: len out of range, 9 out of fuel in a
+   for-cond loop).
    "L<n>:" comments quote the Go source line translated.
    Tie/Kernels2_*.v prove these functions equal to the hand-written models. *)
 From Coq Require Import List NArith ZArith Bool.
@@ -479,6 +499,22 @@ Definition index_byte (s : list N) (c : N) : Z := index_byte_from s c 0%Z.
 Fixpoint last_index_byte_from (s : list N) (c : N) (i best : Z) : Z :=
   match s with [] => best | x :: t => last_index_byte_from t c (i + 1)%Z (if x =? c then i else best) end.
 Definition last_index_byte (s : list N) (c : N) : Z := last_index_byte_from s c 0%Z (-1)%Z.
+
+(* copy(dst[off:], src), dst a local array: overwrites min(len dst - off, len src) elements; the new dst *)
+Definition copy_at {A} (dst : list A) (off : Z) (src : list A) : res (list A) :=
+  if ((off <? 0) || (Z.of_nat (List.length dst) <? off))%Z then Panic 2 else
+  let o := Z.to_nat off in
+  let n := Nat.min (List.length dst - o) (List.length src) in
+  Ok (List.firstn o dst ++ List.firstn n src ++ List.skipn (o + n) dst).
+
+(* binary.LittleEndian.PutUint32(dst[off:], v), dst a local array: the new dst (Panic 1 when fewer than 4
+   bytes remain, as the bounds check of the library) *)
+Definition put_le32 (dst : list N) (off : Z) (v : N) : res (list N) :=
+  if ((off <? 0) || (Z.of_nat (List.length dst) <? off))%Z then Panic 2 else
+  if (Z.of_nat (List.length dst) - off <? 4)%Z then Panic 1 else
+  let o := Z.to_nat off in
+  Ok (List.firstn o dst ++ [v mod 256; (v / 256) mod 256; (v / 65536) mod 256; (v / 16777216) mod 256]
+      ++ List.skipn (o + 4) dst).
 
 (* bytes.Compare(a, b): -1, 0, +1 lexicographically *)
 Fixpoint bytes_compare (a b : list N) : Z :=
